@@ -176,7 +176,7 @@ def r2_filter_dominance(ctx, rep):
     assoc = [e for e in ev if e.kind == "assign" and e.target and e.target.startswith(chain + "[") and "associations" in ast.unparse(e.value)]
     ok = bool(assoc) and idx[id(assoc[0])] < idx[id(ap)] and not any("INTRINSICS" in c for c in assoc[0].cond_texts())
     rep.ob("ASSOCIATE names substituted before the tests", ok, "", py.nloc(assoc[0].node) if assoc else py.nloc(fn))
-    co = py.func("FortranCodeUnit.correlate")
+    co = py.ifunc("FortranCodeUnit.correlate")      # canonical form: the matching loop may live in a helper
     cev = astq.trace(co)
     found = [e for e in cev if e.kind == "assign" and e.value is not None and isinstance(e.value, ast.Call)
              and call_name(e.value).endswith("_find_chain_item")]
@@ -186,7 +186,7 @@ def r2_filter_dominance(ctx, rep):
     callv = ast.unparse(found[0].value.args[0])
     keeps = [e for e in cev if e.kind == "call" and call_name(e.node).endswith(".append") and e.node.args
              and ast.unparse(e.node.args[0]) == item]
-    ok = bool(keeps) and any(re.match(r"not \(?isinstance\(", c) and "FortranVariable" in c and "FortranType" in c for c in keeps[0].cond_texts())
+    ok = bool(keeps) and any(re.match(r"not \(?isinstance\(", c) and "FortranVariable" in c and "FortranType" in c for c in keeps[0].cond_texts_x(co))
     rep.ob("resolved variables and types are dropped from calls", ok, "", py.nloc(co))
     names = [e for e in cev if e.kind == "call" and call_name(e.node).endswith(".append") and e.node.args
              and ast.unparse(e.node.args[0]) == f"{callv}[-1]"]
